@@ -3,7 +3,10 @@
 (*   state    thy   = [types, consts, thms]   the theory (signature + axioms/definitions)                    *)
 (*            d     = the candidate definition offered to the theory  [name, T, args, rhs]                  *)
 (*            phase = "offered" | "added" | "refused"                                                       *)
-(*   init     every candidate of the universe below is offered to the base theory (one initial state each) *)
+(*            queue = the candidates still to be offered (histories of definitions in ONE theory)            *)
+(*   init     every candidate of the universe below is offered to the base theory (one initial state each);  *)
+(*            every HISTORY (sequence of definitions of one name at instance types that are equal, more      *)
+(*            general, crossing or disjoint) is offered item by item to the growing theory                   *)
 (*   actions  Add     the candidate satisfies the literal conditions, its name is new and the equation is       *)
 (*                    well-typed over the extended signature: constant + equation are added                  *)
 (*            Refuse  otherwise                                                                              *)
@@ -11,6 +14,8 @@
 (*            AddedWellTyped     everything in an extended theory is well-typed over ITS signature           *)
 (*            OnlyOKAdded        a theory only grows by candidates that satisfy the conditions                *)
 (*            AllExaminable      every acceptable candidate can be judged semantically (no vacuous implication)   *)
+(*            UniqueGround       no ground instance of a constant is defined twice in a theory (enumeration of   *)
+(*                               ground instances; independent of the unification that decides overlap)          *)
 (* The universe: names new ("c"), overloadable ("ov" :: 'a) and already declared ("neg"); constant types of    *)
 (* arity <= 2 over bool / 'a; left-hand sides with variables, REPEATED variables, constants and applications  *)
 (* as arguments, partial application; right-hand sides = all well-typed terms of depth <= Depth over the      *)
@@ -34,23 +39,39 @@ MacroA == <<"const","$one_a",B>>
 MacroB == <<"const","$one_b",B>>
 MacroS == <<"const","$one_sb",B>>          \* the same formula over the SCHEMATIC type variable ?'b
 SB == <<"stv","b">>
+\* a polymorphic constant first at a GROUND type, then at a type with the extra variable (and the other way round)
+OvAt(T) == <<"const","ov",T>>
+MacroGP == <<"const","$ground_poly",B>>
+MacroPG == <<"const","$poly_ground",B>>
+EqOv(T) == App(App(EqC(T), OvAt(T)), OvAt(T))
 RECURSIVE Expand(_)
 Expand(t) == IF t = MacroA THEN One(TA) ELSE IF t = MacroB THEN One(TB) ELSE IF t = MacroS THEN One(SB)
+             ELSE IF t = MacroGP THEN App(App(EqC(B), EqOv(B)), EqOv(TB))
+             ELSE IF t = MacroPG THEN App(App(EqC(B), EqOv(TB)), EqOv(B))
              ELSE CASE t[1] = "comb" -> <<"comb", Expand(t[2]), Expand(t[3])>>
                     [] t[1] = "abs" -> <<"abs", t[2], Expand(t[3])>>
                     [] OTHER -> t
 
 \* ---------------------------------------------------------------- the base theory (logic_base restricted, plus an overloaded constant)
-Decl(T, ov) == [T |-> T, ov |-> ov]
+Decl(T, ov) == [T |-> T, ov |-> ov, insts |-> {}]      \* insts: the instance types at which an overloadable name has been defined
 BaseConsts == ("equals" :> Decl(FunT(TA,FunT(TA,B)), FALSE)) @@ ("implies" :> Decl(FunT(B,FunT(B,B)), FALSE))
               @@ ("all" :> Decl(FunT(FunT(TA,B),B), FALSE)) @@ ("true" :> Decl(B, FALSE)) @@ ("false" :> Decl(B, FALSE))
-              @@ ("neg" :> Decl(FunT(B,B), FALSE)) @@ ("conj" :> Decl(FunT(B,FunT(B,B)), FALSE)) @@ ("ov" :> Decl(TA, TRUE))
-BaseThy == [types |-> << <<"bool",0>>, <<"fun",2>> >>, consts |-> BaseConsts, thms |-> {}]
+              @@ ("neg" :> Decl(FunT(B,B), FALSE)) @@ ("conj" :> Decl(FunT(B,FunT(B,B)), FALSE)) @@ ("ov" :> Decl(TA, TRUE)) @@ ("ov2" :> Decl(FunT(TA,FunT(TB,B)), TRUE))
+BaseThy == [types |-> << <<"bool",0>>, <<"fun",2>> >>, consts |-> BaseConsts, thms |-> {}, defs |-> <<>>]
 
 \* ---------------------------------------------------------------- the universe of candidates
-Names == {"c", "ov", "neg"}
+Names == {"c", "ov", "neg", "ov2"}
+\* instance types of ov2 :: 'a => 'b => bool : polymorphic/ground, ground/polymorphic (CROSSES the first: neither is an
+\* instance of the other, yet they have a common instance), their common instance, a disjoint one, a generalisation
+T2L == FunT(FunT(TA,B), FunT(FunT(B,B), B))
+T2R == FunT(FunT(B,B), FunT(FunT(TA,B), B))
+T2G == FunT(FunT(B,B), FunT(FunT(B,B), B))
+T2D == FunT(B, FunT(FunT(TA,B), B))
+T2P == FunT(FunT(TA,B), FunT(FunT(TB,B), B))
+Ov2Types == {T2L, T2R, T2G, T2D, T2P}
 BaseTypes == {B, FunT(B,B), FunT(TA,B), FunT(TA,TA)}
 ConstTypes(nm) == IF nm = "neg" THEN {FunT(B,B)}
+                  ELSE IF nm = "ov2" THEN {T2L}
                   ELSE IF nm = "c" THEN BaseTypes \cup {FunT(TA,FunT(TA,B))} \cup (IF Rich THEN {FunT(B,FunT(B,B)), FunT(FunT(TA,B),B)} ELSE {})
                   ELSE BaseTypes \cup (IF Rich THEN {FunT(B,FunT(B,B)), FunT(TA,FunT(TA,B))} ELSE {})
 RECURSIVE ArgTys(_)
@@ -69,6 +90,7 @@ ArgSeqs(T) == LET As == ArgTys(T) IN
           \cup (IF Len(As) >= 2 THEN { <<a, b>> : a \in Pool(As, 1), b \in Pool(As, 2) } ELSE {})
 \* atoms of right-hand sides
 OtherInst(nm, T) == IF nm = "neg" THEN {}
+                    ELSE IF nm = "ov2" THEN Ov2Types \ {T}
                     ELSE IF Rich THEN {B, TA, FunT(B,B)} \ {T}
                     ELSE IF nm = "ov" THEN {B, TA} \ {T}
                     ELSE IF T = FunT(B,B) THEN {B} ELSE {FunT(B,B)}
@@ -79,47 +101,81 @@ SigOf(nm, T, args) ==
    \cup {<<"const", nm, T>>}                                                     \* self-reference
    \cup { <<"const",nm,T2>> : T2 \in OtherInst(nm, T) }                          \* the same name at other types (overlapping or not)
    \cup (IF Rich THEN {EqC(B), Conj, MacroA, AllC(TA)} ELSE {})
-GenArgTypes == {B, TA, FunT(TA,B)} \cup (IF Rich THEN {FunT(B,B)} ELSE {})
+GenArgTypes(nm) == {B, TA, FunT(TA,B)} \cup (IF Rich \/ nm = "ov2" THEN {FunT(B,B)} ELSE {})
+\* a second, shallow family of right-hand sides over formulas in which the ORDER of occurrences of a constant matters
+SigX == {Neg, MacroGP, MacroPG}
 Cand(nm, T, args, rhs) == [name |-> nm, T |-> T, args |-> args, rhs |-> rhs]
-CandsFor(nm, T, args) == { Cand(nm, T, args, Expand(r)) : r \in Gen(SigOf(nm, T, args), GenArgTypes, RestT(T, Len(args)), Depth, <<>>) }
+CandsFor(nm, T, args) == { Cand(nm, T, args, Expand(r)) : r \in Gen(SigOf(nm, T, args), GenArgTypes(nm), RestT(T, Len(args)), Depth, <<>>)
+                                                              \cup Gen(SigX, {B}, RestT(T, Len(args)), 1, <<>>) }
 Candidates == UNION { UNION { UNION { CandsFor(nm, T, args) : args \in ArgSeqs(T) } : T \in ConstTypes(nm) } : nm \in Names }
 
+\* ---------------------------------------------------------------- histories: several definitions of ONE name in one theory
+VarsFor(T) == LET As == ArgTys(T) IN [i \in 1..Len(As) |-> VarAt(i, As[i])]
+HistTypes(nm) == IF nm = "ov2" THEN Ov2Types ELSE IF nm = "ov" THEN {B, FunT(B,B), FunT(TA,TA), FunT(TA,B)} ELSE {B, FunT(B,B)}
+HistCands(nm) == { Cand(nm, T, VarsFor(T), r) : T \in { T \in HistTypes(nm) : RestT(T, Len(ArgTys(T))) = B }, r \in {cTrue, App(Neg, cTrue)} }
+                 \cup { Cand(nm, T, <<VarAt(1, TA)>>, VarAt(1, TA)) : T \in HistTypes(nm) \cap {FunT(TA,TA)} }
+Histories == UNION { { <<a, b>> : a \in HistCands(nm), b \in HistCands(nm) } : nm \in {"ov2", "ov", "c"} }
+             \cup (IF Rich THEN { <<a, b, c>> : a \in HistCands("ov2"), b \in HistCands("ov2"), c \in HistCands("ov2") } ELSE {})
+
 \* ---------------------------------------------------------------- the machine
-VARIABLES thy, d, phase
-vars == <<thy, d, phase>>
+VARIABLES thy, d, phase, queue
+vars == <<thy, d, phase, queue>>
 DefProp(x) == App(App(EqC(TypeOf(Lhs(x), <<>>)), Lhs(x)), x.rhs)
-\* the name is new: not declared, or declared overloadable and the type is a closed instance of the declared one
-RECURSIVE Closed(_)
-Closed(T) == IF T[1] \in {"tv","stv"} THEN FALSE ELSE \A i \in 1..Len(T[3]) : Closed(T[3][i])
+\* the name is new: not declared; or declared overloadable, the type is an instance of the declared one by type constructors,
+\* and it does not OVERLAP any instance type at which the name has been defined already
 NewName(t, x) == IF x.name \notin DOMAIN t.consts THEN TRUE
-                 ELSE t.consts[x.name].ov /\ LET m == TMatch(ToStv(t.consts[x.name].T), x.T, <<>>) IN
-                                             m # ErrAL /\ \A i \in 1..Len(m) : Closed(m[i][2])
-\* the signature after the definition: a new name is declared at the type given (an instance of an overloaded name is not)
-ExtConsts(t, x) == IF x.name \in DOMAIN t.consts THEN t.consts ELSE (x.name :> Decl(x.T, FALSE)) @@ t.consts
-Extend(t, x) == [types |-> t.types, consts |-> ExtConsts(t, x), thms |-> t.thms \cup {DefProp(x)}]
+                 ELSE LET dcl == t.consts[x.name] m == TMatch(ToStv(dcl.T), x.T, <<>>) IN
+                      /\ dcl.ov /\ m # ErrAL /\ \A i \in 1..Len(m) : m[i][2][1] = "tc"
+                      /\ \A p \in dcl.insts : ~Overlaps(p, x.T)
+\* the signature after the definition: a new name is declared at the type given; an instance of an overloaded name is recorded
+ExtConsts(t, x) == IF x.name \in DOMAIN t.consts
+                   THEN [t.consts EXCEPT ![x.name] = [@ EXCEPT !.insts = @ \cup {x.T}]]
+                   ELSE (x.name :> Decl(x.T, FALSE)) @@ t.consts
+Extend(t, x) == [types |-> t.types, consts |-> ExtConsts(t, x), thms |-> t.thms \cup {DefProp(x)}, defs |-> Append(t.defs, x)]
 CSigOf(cs) == LET ks == SetToSeq(DOMAIN cs) IN [i \in 1..Len(ks) |-> <<ks[i], cs[ks[i]].T>>]
 CSig(t) == CSigOf(t.consts)
 \* the defining equation is well-typed over the signature extended by the constant (a NEW name must not occur at a non-instance type)
 WellFormed(t, x) == PropOK(DefProp(x), CSigOf(ExtConsts(t, x)), t.types)
 Acceptable(t, x) == SyntacticOK(x) /\ NewName(t, x) /\ WellFormed(t, x)
-Init == thy = BaseThy /\ d \in Candidates /\ phase = "offered"
+Init == /\ thy = BaseThy /\ phase = "offered"
+        /\ \/ d \in Candidates /\ queue = <<>>
+           \/ \E h \in Histories : d = h[1] /\ queue = Tail(h)
 Add == /\ phase = "offered" /\ Acceptable(thy, d)
-       /\ thy' = Extend(thy, d) /\ phase' = "added" /\ UNCHANGED d
+       /\ thy' = Extend(thy, d) /\ phase' = "added" /\ UNCHANGED <<d, queue>>
 Refuse == /\ phase = "offered" /\ ~Acceptable(thy, d)
-          /\ phase' = "refused" /\ UNCHANGED <<thy, d>>
-Next == Add \/ Refuse
+          /\ phase' = "refused" /\ UNCHANGED <<thy, d, queue>>
+OfferNext == /\ phase \in {"added", "refused"} /\ queue # <<>>
+             /\ d' = Head(queue) /\ queue' = Tail(queue) /\ phase' = "offered" /\ UNCHANGED thy
+Next == Add \/ Refuse \/ OfferNext
 Spec == Init /\ [][Next]_vars
 
 \* ---------------------------------------------------------------- properties
+Small(x) == OnlyBase(x.T) /\ DomSize(x.T, N) <= 16
 ConservativeIfOK == (SyntacticOK(d) /\ NewName(BaseThy, d) /\ CExaminable(d, N)) => Conservative(d, N)
-AllExaminable == (SyntacticOK(d) /\ NewName(BaseThy, d)) => CExaminable(d, N)
+AllExaminable == (SyntacticOK(d) /\ NewName(BaseThy, d) /\ Small(d)) => CExaminable(d, N)
 AddedWellTyped == \A p \in thy.thms : PropOK(p, CSig(thy), thy.types)
-OnlyOKAdded == thy.thms # {} => phase = "added" /\ thy.thms = {DefProp(d)} /\ SyntacticOK(d)
+OnlyOKAdded == /\ thy.thms = { DefProp(thy.defs[i]) : i \in 1..Len(thy.defs) }
+               /\ \A i \in 1..Len(thy.defs) : SyntacticOK(thy.defs[i])
+               /\ phase = "added" => Len(thy.defs) > 0 /\ thy.defs[Len(thy.defs)] = d
+\* ground instances of a type: its type variables replaced by bool / bool => bool in all ways
+RECURSIVE TvSubst(_,_)
+TvSubst(T, f) == IF T[1] = "tv" THEN f[<<"tv",T[2]>>] ELSE IF T[1] = "stv" THEN T
+                 ELSE <<"tc", T[2], [i \in 1..Len(T[3]) |-> TvSubst(T[3][i], f)]>>
+GroundInsts(T) == { TvSubst(T, f) : f \in [TyVarsOf(T) -> {B, FunT(B,B)}] }
+UniqueGround == \A i, j \in 1..Len(thy.defs) : (i < j /\ thy.defs[i].name = thy.defs[j].name)
+                                                => GroundInsts(thy.defs[i].T) \cap GroundInsts(thy.defs[j].T) = {}
 \* ---------------------------------------------------------------- vectors
 ToJ(x) == LET ex == CExaminable(x, N) IN
           [name |-> x.name, T |-> x.T, args |-> x.args, rhs |-> x.rhs,
            sok |-> SyntacticOK(x), exam |-> ex, cons |-> IF ex THEN Conservative(x, N) ELSE FALSE, newname |-> NewName(BaseThy, x), wf |-> WellFormed(BaseThy, x)]
-Post == LET cs == SetToSeq(Candidates) IN
+\* a history with the reference outcome of every step
+RECURSIVE Run(_,_)
+Run(t, h) == IF h = <<>> THEN <<>>
+             ELSE LET ok == Acceptable(t, Head(h)) IN
+                  <<[name |-> Head(h).name, T |-> Head(h).T, args |-> Head(h).args, rhs |-> Head(h).rhs, accept |-> ok]>>
+                  \o Run(IF ok THEN Extend(t, Head(h)) ELSE t, Tail(h))
+Post == LET cs == SetToSeq(Candidates) hs == SetToSeq(Histories) IN
         /\ ndJsonSerialize(IOEnv.VECTOR_FILE, [i \in 1..Len(cs) |-> ToJ(cs[i])])
-        /\ PrintT(<<"candidates", Len(cs)>>)
+        /\ ndJsonSerialize(IOEnv.HIST_FILE, [i \in 1..Len(hs) |-> [steps |-> Run(BaseThy, hs[i])]])
+        /\ PrintT(<<"candidates", Len(cs), "histories", Len(hs)>>)
 =============================================================================
